@@ -8,11 +8,16 @@
    reserved_free p: the tag VALUE "_none" and the empty measurement are the two places where
    the format itself is not faithful (known finding F17): C05_*_refuted below. *)
 From Coq Require Import List ZArith NArith Bool.
-From TF Require Import Base Query Codec Csv Text proofs.CodecP proofs.CsvP proofs.TextP.
+From TF Require Import Base Query Codec Csv Text proofs.CodecP proofs.CsvP proofs.TextP proofs.CodecGenP.
+From TF Require gen.CodecGen.
 Import ListNotations.
 
 Theorem C05_roundtrip : forall (compact : bool) (p : point), wf_point p -> reserved_free p = true -> de (ser compact p) = Some p.
 Proof. exact de_ser. Qed.
+(* the serializer REGENERATED from tinyflux/point.py on every run (gen/CodecGen.v: Point._serialize_to_list evaluated
+   symbolically into a normal form) is the model's, for every flag and every point *)
+Theorem C05_source_serializer_is_the_model : forall compact p, CodecGen.serialize compact p = ser compact p.
+Proof. exact gen_serialize_eq. Qed.
 Theorem C05_text_roundtrip : forall fmt_time parse_time fmt_num parse_num,
   (forall t, parse_time (fmt_time t) = Some t) -> (forall x, parse_num (fmt_num x) = Some x) ->
   (forall x, str_eqb (fmt_num x) s_none = false) ->
@@ -47,6 +52,7 @@ Proof. exact not_injective_refuted. Qed.
 Example C05_nonvacuous : exists p, wf_point p /\ reserved_free p = true /\ p_tags p <> [] /\ p_fields p <> [] /\ de (ser true p) = Some p.
 Proof. exact de_ser_example. Qed.
 
+Print Assumptions C05_source_serializer_is_the_model.
 Print Assumptions C05_roundtrip.
 Print Assumptions C05_text_roundtrip.
 Print Assumptions C05_injective.
